@@ -5,10 +5,13 @@ use std::{env, fmt::Write as _, fs, path::PathBuf};
 fn main() {
     let out = PathBuf::from(env::var("OUT_DIR").unwrap());
     let pkg = env::var("CARGO_PKG_NAME").unwrap();
-    let shard: usize = pkg.trim_start_matches("shard").parse().unwrap();
-    let of: usize = 8;
     println!("cargo:rerun-if-env-changed=VERIF_FAMILY");
-    let tier = env::var("VERIF_FAMILY").unwrap_or_else(|_| "quick".to_owned());
+    // "shardm" holds the whole reduced family that is also interpreted by Miri
+    let (shard, of, tier): (usize, usize, String) = if pkg == "shardm" {
+        (0, 1, "miri".to_owned())
+    } else {
+        (pkg.trim_start_matches("shard").parse().unwrap(), 8, env::var("VERIF_FAMILY").unwrap_or_else(|_| "quick".to_owned()))
+    };
     let family = defgen::family(&tier);
     let mut glue = String::new();
     let mut registry = String::from("pub fn registry() -> Vec<reccore::DefEntry> {\n    vec![\n");
